@@ -257,6 +257,7 @@ inline Verdict run_forked(const std::string &prop, const std::function<Verdict()
     int status = 0;
     waitpid(pid, &status, 0);
     if (stderr_out) *stderr_out = err;
+    if (getenv("VERIF_FULLERR") && !err.empty()) fprintf(stderr, "%s\n", err.c_str());
     Verdict v;
     if (sv->done) {
         v.ok = sv->ok; v.nontrivial = sv->nontrivial; v.inconclusive = sv->inconclusive;
